@@ -15,91 +15,12 @@ from .. import world as W
 
 PID = "C08"
 
-UCC_CONFIG = '''
-[compiler.ucc]
-options = ["-DUCC_IMPLICIT"]
-
-[[compiler.ucc.parser]]
-flags = ["--arch"]
-action = "extend_match"
-pattern = '(\\d+)'
-format = "a$value"
-dest = "passes"
-default = ["a1"]
-%(override)s
-
-[[compiler.ucc.parser]]
-flags = ["--feat"]
-action = "store_split"
-sep = ","
-format = "f$value"
-dest = "passes"
-
-[[compiler.ucc.parser]]
-flags = ["--mx"]
-action = "append_const"
-dest = "modes"
-const = "mx"
-
-[[compiler.ucc.modes]]
-name = "mx"
-defines = ["A"]
-
-[[compiler.ucc.passes]]
-name = "a1"
-defines = ["B"]
-
-[[compiler.ucc.passes]]
-name = "a2"
-defines = ["C"]
-
-[[compiler.ucc.passes]]
-name = "a3"
-defines = ["W=2"]
-modes = ["mx"]
-
-[[compiler.ucc.passes]]
-name = "f1"
-defines = ["V=2"]
-
-[[compiler.ucc.passes]]
-name = "f2"
-defines = ["A", "C"]
-
-[compiler.ucc2]
-alias_of = "ucc"
-%(gcc_extra)s
-'''
-
-
 def generate(seed, scratch):
     r = core.rng_for(seed, "gen")
     world, cfg = gen.gen_world(r, "c08")
     rs = core.rng_for(seed, "sched")
     if cfg["cbi_config"]:
-        world["cbi_config"] = UCC_CONFIG % {
-            "override": "override = true" if rs.random() < 0.3 else "",
-            "gcc_extra": '\n[compiler.gcc]\noptions = ["-DS0=%s"]\n' % 1 if False else "",
-        }
-        # some commands use the user-defined compiler with pass/mode selecting flags
-        for p in world["platforms"]:
-            for i, e in enumerate(p["entries"]):
-                if rs.random() < 0.6:
-                    argv = W.entry_argv(e)
-                    if not argv:
-                        continue
-                    argv[0] = rs.choice(["ucc", "ucc", "ucc2"])
-                    extra = []
-                    k = rs.random()
-                    if k < 0.4:
-                        extra += ["--arch", rs.choice(["2", "3", "2,3", "sm_2"])]
-                    if rs.random() < 0.25:
-                        extra += ["--feat", rs.choice(["1", "2", "1,2"])]
-                    if rs.random() < 0.25:
-                        extra += ["--mx"]
-                    argv = [argv[0]] + extra + argv[1:]
-                    e.pop("command", None)
-                    e["arguments"] = argv
+        gen.apply_user_compiler(world, rs)
     ents = [[pi, ei] for pi, p in enumerate(world["platforms"]) for ei in range(len(p["entries"]))]
     rs.shuffle(ents)
     k = rs.randint(2, 4)
